@@ -870,6 +870,36 @@ pub fn exec<'a>(who: Who, k: u32, op: &'a Op, me: SelfRef<'a>) -> BoxFut<'a, Flo
             Op::ConsumeBudget(n) => consume_budget(*n).await,
             Op::Tell { .. } | Op::TellT { .. } | Op::TellUs { .. } | Op::Ask { .. } | Op::AskT { .. } | Op::AskUs { .. } | Op::AskJoin { .. } | Op::Stop { .. } | Op::Unpolled(_) => unreachable!("handled eagerly above"),
             Op::Kill { h } => kill_handle(who, k, *h),
+            Op::TellSelf { m, ms } => {
+                let up;
+                let r: Option<&ActorRef<SimActor>> = match me {
+                    SelfRef::Strong(r) => Some(r),
+                    SelfRef::Weak(w) => {
+                        up = w.upgrade();
+                        up.as_ref()
+                    }
+                    SelfRef::None => None,
+                };
+                let us = ms_to_us(*ms);
+                match r {
+                    None => {
+                        log(EvKind::Inv { who, k, op: OpTag::TellT, a: who.actor_ctx(), mid: Some(m.id), us: Some(us), via: "self:none".into(), budget: budget_ok() });
+                        log(EvKind::Ret { who, k, res: Res::NoHandle, polls: 0 });
+                    }
+                    Some(r) => {
+                        let a = world::actor_of_raw(r.identity().id);
+                        log(EvKind::Created { who, k, op: OpTag::TellT, a: a.unwrap_or(u32::MAX), mid: Some(m.id) });
+                        let lib = Box::pin(r.tell_with_timeout(Work(m.clone()), dur(us)));
+                        let fut: BoxFut<'_, Res> = Box::pin(async move { unit_res(lib.await) });
+                        let inv = EvKind::Inv { who, k, op: OpTag::TellT, a, mid: Some(m.id), us: Some(us), via: "self".into(), budget: true };
+                        let (res, polls) = Tracked { fut, who, k, polls: 0, done: false, inv: Some(inv) }.await;
+                        if matches!(res, Res::ErrTimeout { .. }) {
+                            world::with(|w| w.probes.timeouts_fired += 1);
+                        }
+                        log(EvKind::Ret { who, k, res, polls });
+                    }
+                }
+            }
             Op::StopSelf | Op::KillSelf => {
                 let r = match me {
                     SelfRef::Strong(r) => Some(r.clone()),
